@@ -65,17 +65,28 @@ Proof.
     try (inv E; auto; fail); eapply fma_fetch_fused; eauto.
 Qed.
 
+Lemma items_map_rdy {A} (xs : list A) : items (map (@Rdy A) xs) = xs.
+Proof. induction xs; simpl; congruence. Qed.
+
+Lemma fused_map_rdy {A} (xs : list A) : fused_b (map (@Rdy A) xs) = true.
+Proof. induction xs; simpl; auto. Qed.
+
 Theorem xmodel_holds c n :
-  match c with XRelay _ | XStreamReady _ | XFlatMapStream _ _ | XFlattenStream _
+  match c with XRelay _ | XSource _ | XStreamReady _ | XFlatMapStream _ _ | XFlattenStream _
            | XFilterMapAsync _ _ => True | _ => False end ->
   tr_items (xrun c n) <> None -> gen_ok (xref c) (xfused c) (xrun c n) = true.
 Proof.
-  destruct c as [a|a|g a|a|f a|a|a|ac a|wh rd fn a]; intros OK NE; try contradiction;
+  destruct c as [a|xs|a|g a|a|f a|a|a|ac a|wh rd fn a]; intros OK NE; try contradiction;
     cbn [xrun xref xfused] in *.
   - refine (@spec_gen_ok _ (src_m (sh a)) VN always (fun l => fused_b l = true)
               (fun l => items l) (@src_spec _ (sh a) (sh_truthful a))
               (@always_closed _ _) (@src_fin_closed _ (sh a)) n (s_scr a) false I _ NE).
     discriminate.
+  - rewrite <- (items_map_rdy xs) at 1.
+    refine (@spec_gen_ok _ (src_m exact_hint) VN always (fun l => fused_b l = true)
+              (fun l => items l) (@src_spec _ exact_hint (slack_truthful 0 (Some 0)))
+              (@always_closed _ _) (@src_fin_closed _ exact_hint) n (map (@Rdy N) xs) true I
+              (fun _ => fused_map_rdy xs) NE).
   - refine (@spec_gen_ok _ (sready_m (sh a)) VN always never (fun l => items_now l)
               (@sready_spec _ (sh a) (sh_truthful a))
               (@always_closed _ _) (@never_closed _ _ _) n (s_scr a) false I _ NE).
